@@ -739,7 +739,7 @@ theorem run_congr (ev₁ ev₂ : ε → Defs β → Except Diag Bool) (ls : List
   | cons l ls ih =>
     have hl : ∀ c, l.cond? = some c → ∀ d, ev₁ c d = ev₂ c d := by
       intro c hc
-      exact h c (by simp [conds, List.filterMap_cons, hc])
+      exact h c (by simp [conds, hc])
     have hrest : ∀ c ∈ conds ls, ∀ d, ev₁ c d = ev₂ c d := by
       intro c hc
       apply h c
